@@ -357,8 +357,10 @@ fn check_pair<G: Grp>(a: &PV, b: &PV, via: &PV, mode: u8) -> Outcome {
     let pa: G = build_pv(a);
     let ra = ref_pv(g, a);
     let pv: G = build_pv(via);
-    // mode: 0 independent b; 1 (a + via) - via; 2 (a - via) + via; 3 decode(encode(a)); 4 2a - a; 5 -(-a)
-    let (pb, rb): (G, _) = match mode % 6 {
+    // mode: 0 independent b; 1 (a + via) - via; 2 (a - via) + via; 3 decode(encode(a)); 4 2a - a; 5 -(-a);
+    // 6 -((n-1)*a): same element, the representative may differ by a torsion point (n - 1 = 0 mod cofactor);
+    // 7 (quotient groups, hooks) the representative of a shifted by an admissible torsion point
+    let (pb, rb): (G, _) = match mode % 8 {
         1 => (G::sub(G::add(pa, pv, 0), pv, 0), ra.clone()),
         2 => (G::add(G::sub(pa, pv, 0), pv, 0), ra.clone()),
         3 => {
@@ -373,10 +375,21 @@ fn check_pair<G: Grp>(a: &PV, b: &PV, via: &PV, mode: u8) -> Outcome {
         }
         4 => (G::sub(G::double(pa, 0), pa, 0), ra.clone()),
         5 => (G::neg(G::neg(pa, 0), 0), ra.clone()),
+        6 => {
+            let nm1: G::S = scalar_of::<G>(&(r.order() - 1u32));
+            // on the Edwards curves a may carry a torsion component, so the value is computed in the model
+            (G::neg(G::mul(pa, &nm1, 0), 0), r.neg(&r.mul(&(r.order() - 1u32), &ra)))
+        }
+        7 if is_quotient(g) && a.chain.is_empty() => {
+            let enc = r.encode(&ra);
+            let shifted = PSrc::Rep(enc, (mode >> 3) | 1);
+            (build_src(&shifted), ra.clone())
+        }
         _ => (build_pv(b), ref_pv(g, b)),
     };
-    acc.nt(mode % 6 != 0);
-    if mode % 6 != 0 {
+    let independent = !matches!(mode % 8, 1..=6) && !(mode % 8 == 7 && is_quotient(g) && a.chain.is_empty());
+    acc.nt(!independent);
+    if !independent {
         acc.tag("same_element_other_representative");
     }
     let (ea, eb) = (guard(|| pa.encode()), guard(|| pb.encode()));
@@ -389,6 +402,12 @@ fn check_pair<G: Grp>(a: &PV, b: &PV, via: &PV, mode: u8) -> Outcome {
     acc.check(same_bytes == (xa == xb), || format!("C06:{name}:representative_dependence"), || format!("encodings identical = {} but the reference says same element = {}", same_bytes, xa == xb));
     let isn = guard(|| G::isneutral(pb));
     acc.check(isn == Ok(if r.is_neutral(&rb) { 0xFFFFFFFF } else { 0 }), || format!("C06:{name}:isneutral"), || format!("isneutral = {:?}, reference {}", isn, r.is_neutral(&rb)));
+    // the difference of two constructions: neutral (in whatever representative the subtraction produces) iff same element
+    let d = guard(|| { let d = G::sub(pa, pb, 0); (G::isneutral(d), d.encode(), G::equals(d, G::neutral())) });
+    let same = xa == xb;
+    let zero = r.encode(&r.neutral());
+    let okd = match &d { Ok((i, e, q)) => *i == if same { 0xFFFFFFFF } else { 0 } && (*e == zero) == same && *q == if same { 0xFFFFFFFF } else { 0 }, Err(_) => false };
+    acc.check(okd, || format!("C06:{name}:difference_neutrality"), || format!("a - b: (isneutral, encoding, equals(NEUTRAL)) = {:?} but the reference says same element = {}", d.as_ref().map(|(i, e, q)| (format!("{i:08x}"), hex(e), format!("{q:08x}"))), same));
     acc.done()
 }
 
@@ -480,7 +499,8 @@ impl Property for C06 {
     fn strategy(&self, class: usize) -> BoxedStrategy<Case> {
         match self.classes[class].1.clone() {
             Kind::Dec(g, dc) => (dec_strategy(g, dc), any::<u8>()).prop_map(move |(b, form)| Case::Dec { g: g as u8, b, form }).boxed(),
-            Kind::Pair(g, pc) => (pv_strategy(g, pc, false), prop::bool::weighted(0.4).prop_flat_map(move |ch| pv_strategy(g, pc, ch)), any_pv(g), any_pv(g), 0u8..6)
+            Kind::Pair(g, pc) => (pv_strategy(g, pc, false), prop::bool::weighted(0.4).prop_flat_map(move |ch| pv_strategy(g, pc, ch)), any_pv(g), any_pv(g), any::<u8>())
+                
                 .prop_map(move |(_, a, b, via, mode)| Case::Pair { g: g as u8, a, b, via, mode })
                 .boxed(),
             Kind::Map(g) => {
